@@ -205,8 +205,8 @@ func c02Use(v any) {
 		}
 		x.Encode()
 	case c02GtabVal:
-		x.info.Encode()
 		x.info.FindLookups(language.Und, map[string]bool{"test": true, "kern": true, "liga": true})
+		x.info.Encode()
 	case *gdef.Table:
 		for gid := glyph.ID(0); gid < 8; gid++ {
 			x.IsMark(gid)
@@ -508,6 +508,37 @@ func c02Seeds(thorough bool) []*c02Seed {
 		{
 			l := gen.MakeLookup(1, gen.FlagSet{Flags: gtab.UseMarkFilteringSet | gtab.IgnoreLigatures, Set: 1}, gen.GsubSimple[0].Sub())
 			add(c02TableSeed("gtab.Read/GSUB", "mark filtering set", encode(gtab.TypeGsub, gtab.LookupList{l})))
+		}
+		// lookup types the generator does not produce, assembled by hand: mark-to-ligature attachment
+		// (GPOS 5) and extension lookups (GSUB 7 / GPOS 9) wrapping a single substitution / adjustment
+		{
+			wrap := func(lookupType int, sub []byte) []byte {
+				out := be16(1, 0, 10, 12, 14) // header; empty script and feature lists
+				out = append(out, be16(0, 0)...)
+				out = append(out, be16(1, 4)...)                 // lookup list: one lookup
+				out = append(out, be16(lookupType, 0, 1, 8)...) // lookup: one subtable
+				return append(out, sub...)
+			}
+			anchor := func(x, y int) []byte { return be16(1, x, y) }
+			gpos5 := be16(1, 12, 18, 1, 24, 36)       // format, mark cov, lig cov, class count, mark array, lig array
+			gpos5 = append(gpos5, be16(1, 1, 5)...)   // mark coverage: M
+			gpos5 = append(gpos5, be16(1, 1, 4)...)   // ligature coverage: L
+			gpos5 = append(gpos5, be16(1, 0, 6)...)   // mark array: one record, class 0
+			gpos5 = append(gpos5, anchor(10, 20)...)
+			gpos5 = append(gpos5, be16(1, 4)...)      // ligature array: one ligature
+			gpos5 = append(gpos5, be16(2, 6, 12)...)  // ligature attach: two components, one class
+			gpos5 = append(gpos5, anchor(100, 700)...)
+			gpos5 = append(gpos5, anchor(400, 700)...)
+			add(c02TableSeed("gtab.Read/GPOS", "GPOS5 mark-to-ligature (hand-assembled)", wrap(5, gpos5)))
+			ext := func(extType int, sub []byte) []byte {
+				out := be16(1, extType)
+				out = append(out, be32(8)...)
+				return append(out, sub...)
+			}
+			gsub1 := append(be16(1, 6, 1), be16(1, 1, 1)...) // single substitution format 1: coverage {A}, delta 1
+			add(c02TableSeed("gtab.Read/GSUB", "GSUB7 extension wrapping GSUB1 (hand-assembled)", wrap(7, ext(1, gsub1))))
+			gpos1 := append(be16(1, 8, 4, 10), be16(1, 1, 1)...) // single adjustment format 1: coverage {A}, xAdvance 10
+			add(c02TableSeed("gtab.Read/GPOS", "GPOS9 extension wrapping GPOS1 (hand-assembled)", wrap(9, ext(1, gpos1))))
 		}
 		// coverage and class definition tables, both formats
 		cov1 := be16(1, 3, 1, 2, 5)
